@@ -980,7 +980,7 @@ impl Campaign for C17 {
                         // An unparked thread that the OS has not scheduled yet still looks parked.
                         // Scheduling canaries: threads made runnable *after* the waiter must have run
                         // (three rounds) while the waiter is still parked, before this is a verdict.
-                        for _ in 0..3 {
+                        for _ in 0..20 {
                             let ran = AtomicBool::new(false);
                             std::thread::scope(|cs| {
                                 cs.spawn(|| ran.store(true, Ordering::Release));
